@@ -135,10 +135,14 @@ Definition split_doc (input : str) : list str * bool :=
   | _ => (map block_bytes (removelast (split_rows rows)), false)
   end.
 
-(* one generate worker on one block through a fresh parser: the block is scanned again *)
-Definition gen_block (block : str) : bres :=
-  let '(rows, e) := scan_lines block in
-  match e with
-  | ScanEOF => worker None (parse_all p0 rows)
-  | _ => match worker None (parse_all p0 rows) with BRoot _ => BErr | x => x end
+(* the lines of a block as the generate worker reads them (after D25: strings.Cut at every "\n", no
+   line scanner, so no second dropCR): a last piece without "\n" is a line too, unless it is empty *)
+Fixpoint block_lines_go (cur : str) (s : str) : list str :=
+  match s with
+  | [] => match cur with [] => [] | _ => [rev cur] end
+  | c :: r => if Ascii.eqb c c_lf then rev cur :: block_lines_go [] r else block_lines_go (c :: cur) r
   end.
+Definition block_lines (s : str) : list str := block_lines_go [] s.
+
+(* one generate worker on one block through a fresh parser *)
+Definition gen_block (block : str) : bres := worker None (parse_all p0 (block_lines block)).
